@@ -361,7 +361,31 @@ func runCheck(e *Engine, args []string, tier string, timeout int, verif string) 
 	// evidence
 	var tb []string
 	tb = append(tb, "SMT solvers z3 5.1.0 / z3 4.8.12 / cvc5 1.0 (answers 'unsat' are trusted)")
-	tb = append(tb, "govc translation of go/ssa (NaiveForm) to verification conditions; drops: error text, DebugRef; integers mathematical (no overflow), float64 as reals, append never writes a shared backing array")
+	tb = append(tb, "govc translation of go/ssa (NaiveForm) to verification conditions; drops: error text, DebugRef; integers mathematical (no overflow), float64 as reals, append never writes a shared backing array; reading a nil map finds no key (ground fact about reference 0)")
+	if tier != "thorough" {
+		// clauses of this property that belong to the thorough tier are assumptions of a quick run
+		var later []string
+		for _, fn := range fns {
+			ct := e.contractFor(fn)
+			if ct == nil {
+				continue
+			}
+			var all []*Clause
+			all = append(all, ct.Ensures...)
+			all = append(all, ct.LoopInvs...)
+			all = append(all, ct.AtLines...)
+			all = append(all, ct.AtReturn...)
+			for _, cl := range all {
+				if hasProp(cl.Tags, prop+":t") && cl.Name != "" {
+					later = append(later, e.fnKey(fn)+"/"+cl.Name)
+				}
+			}
+		}
+		if len(later) > 0 {
+			sort.Strings(later)
+			tb = append(tb, "assumed in the quick tier, proved in the thorough tier of "+prop+" (tag "+prop+":t): "+strings.Join(later, ", "))
+		}
+	}
 	var lib []string
 	for k, c := range e.contracts {
 		if c.Assumed && e.usedContracts[k] {
